@@ -60,6 +60,10 @@ fn single2(d: &mut Drv, a: B2) {
         let r = a.into_rect();
         d.call("rect_to_box", || json!({"pos": [r.x, r.y], "ext": [r.w, r.h]}), || j2(r.into_aabr()));
         d.call("rect_to_box", || json!({"pos": [r.x, r.y], "ext": [r.w, r.h]}), || j2(Aabr::from(Rect::new(r.x, r.y, r.w, r.h))));
+        // field accessors and setters: set_position / set_extent overwrite exactly their half of the rectangle
+        d.call("rect_to_box", || json!({"pos": [r.x, r.y], "ext": [r.w, r.h]}), || { let mut x = Rect::new(9, 9, 9, 9); x.set_position(r.position()); x.set_extent(r.extent()); j2(x.into_aabr()) });
+        d.call("rect_to_box", || json!({"pos": [r.x, r.y], "ext": [r.w, r.h]}), || { let x: Rect<i32, i32> = Rect::from((r.position(), r.extent())); j2(x.map(|p| p, |e| e).into_aabr()) });
+        d.call("rect_to_box", || json!({"pos": [r.x, r.y], "ext": [r.w, r.h]}), || { let x: Rect<i64, i64> = r.as_(); let b = x.into_aabr(); j2(b.as_()) });
         d.call("center_size", arg, || { let (c, s, h) = (a.center(), a.size(), a.half_size()); json!({"center": [c.x, c.y], "size": [s.w, s.h], "half": [h.w, h.h]}) });
         d.call("center_size", arg, || { let (c, s, h) = (r.center(), r.extent(), a.half_size()); json!({"center": [c.x, c.y], "size": [s.w, s.h], "half": [h.w, h.h]}) });
         for axis in 1..=2usize {
@@ -89,9 +93,12 @@ fn single3(d: &mut Drv, a: B3) {
     d.call("made_valid", arg, || j3(a.made_valid()));
     d.call("map", arg, || j3(a.map(|v| 3 * v + 1)));
     d.call("box_to_rect", arg, || { let r = a.into_rect3(); json!({"pos": [r.x, r.y, r.z], "ext": [r.w, r.h, r.d]}) });
+    d.call("box_drop_z", arg, || j2(Aabr::from(a)));
     if valid3(a) {
         let r = a.into_rect3();
         d.call("rect_to_box", || json!({"pos": [r.x, r.y, r.z], "ext": [r.w, r.h, r.d]}), || j3(r.into_aabb()));
+        d.call("rect_to_box", || json!({"pos": [r.x, r.y, r.z], "ext": [r.w, r.h, r.d]}), || { let mut x = Rect3::new(9, 9, 9, 9, 9, 9); x.set_position(r.position()); x.set_extent(r.extent()); j3(x.into_aabb()) });
+        d.call("rect_to_box", || json!({"pos": [r.x, r.y, r.z], "ext": [r.w, r.h, r.d]}), || { let (p, e) = r.position_extent(); let x: Rect3<i32, i32> = Rect3::from((p, e)); j3(x.map(|p| p, |e| e).into_aabb()) });
         d.call("center_size", arg, || { let (c, s, h) = (a.center(), a.size(), a.half_size()); json!({"center": [c.x, c.y, c.z], "size": [s.w, s.h, s.d], "half": [h.w, h.h, h.d]}) });
         let axis = 1 + d.pick(3);
         let (lo, hi) = match axis { 1 => (a.min.x, a.max.x), 2 => (a.min.y, a.max.y), _ => (a.min.z, a.max.z) };
